@@ -14,7 +14,7 @@ RULE = (
     "configurations: schedule shapes S1 (two sequential tasks), S2 (parallel then task), S3 (parallel completed-by a task with an endless "
     "sibling, then a task), S4 (completed-by any), S5a/S5b (over-committed parallel with / without completed-by), S6 (time-period task), S7 "
     "(unequal client counts, idle clients), S8 (completed-by task on the last of three clients, two clients per worker), S5c (second wave of "
-    "a completed-by element on a worker that does not host the completing task), S3x2 (two completed-by elements in a row), S14 (the completed-by task itself has two clients), S5d (three rows per client below a completed-by element) x layouts {1 host x 1 core, 1x2, 2 hosts x 1, 1x3} x service-time profiles {uniform, client-skewed, "
+    "a completed-by element on a worker that does not host the completing task), S3x2 (two completed-by elements in a row), S4x2 (two completed-by-any elements in a row), S14 (the completed-by task itself has two clients), S5d (three rows per client below a completed-by element) x layouts {1 host x 1 core, 1x2, 2 hosts x 1, 1x3} x service-time profiles {uniform, client-skewed, "
     "task-skewed} x clock offsets {0, +1000 s on the second host}; schedules: every sequence of transitions (deliver head of a "
     "sender/receiver channel | resume an executor thread | deliver a due wake-up | advance time, i.e. delay everything pending | run the "
     "executor thread at a sync point inside a handler) within the deviation bound. non-trivial = execution with at least one deviation; "
@@ -64,6 +64,8 @@ def shapes():
         "S5c": lambda: [P([T("a", 1, it=6, completes=True), T("b", 1, it=1), T("c", 1, it=1), T("d", 1, time_period=ENDLESS)], clients=2), T("e", 2, it=1)],
         # two completed-by elements in a row: per-step state of the coordinator must not leak into the next step
         "S3x2": lambda: [P([T("a", 1, it=3, completes=True), T("b", 1, time_period=ENDLESS)]), P([T("c", 1, it=2, completes=True), T("d", 1, time_period=ENDLESS)]), T("e", 2, it=1)],
+        # two completed-by-any elements in a row: the second one, too, ends when its first task is done (d alone would run past the horizon)
+        "S4x2": lambda: [P([T("a", 1, it=2, any_=True), T("b", 1, it=400, any_=True)]), P([T("c", 1, it=2, any_=True), T("d", 1, it=400, any_=True)]), T("e", 1, it=2)],
         # the completing task itself is run by two clients (co-located on one worker in 1x1): the faster one must not end the slower one
         "S14": lambda: [P([T("a", 2, it=3, completes=True), T("b", 1, time_period=ENDLESS)]), T("c", 2, it=1)],
         # three rows per client below a completed-by element: once the named task is done every remaining row is skipped, not just the next
@@ -242,7 +244,7 @@ def run(tier, seed):
     cfgs = configs(tier)
     if tier == "quick":
         cfgs = [c for c in cfgs if c[2] == "uniform" or c[0] in ("S3", "S5a", "S8") or (c[0] in ("S4", "S7", "S14") and c[2] == "client-skewed")]
-        cfgs = [c for c in cfgs if not (c[0] in ("S5c", "S3x2") and c[1] in ("1x1", "1x3"))]
+        cfgs = [c for c in cfgs if not (c[0] in ("S5c", "S3x2", "S4x2") and c[1] in ("1x1", "1x3"))]
         # (S14 on 1x3: the two clients of the completed-by task sit on two different workers)
         cfgs = [c for c in cfgs if not (c[0] == "S14" and (c[1] == "2x1" or c[2] == "task-skewed"))]
         cfgs = [c for c in cfgs if not (c[0] == "S5d" and (c[1] in ("2x1", "1x3") or c[2] != "uniform"))]
